@@ -180,6 +180,24 @@ func rangeArithmeticRules(r *Report, name string, f *ssa.Function) {
 		case *ssa.Call:
 			if calleeName(x) == "(*os.File).ReadAt" {
 				uses = append(uses, use{"the file is read at the first position", x.Call.Args[2], func(a, b int64) int64 { return a }, x.Pos()})
+				// ReadAt fills the whole slice it is given: that slice has exactly the part's length,
+				// whatever was read before (a scratch buffer kept from a longer part reads too much)
+				exact := true
+				for _, l := range resolveAll(x.Call.Args[1]) {
+					switch y := l.(type) {
+					case *ssa.MakeSlice:
+						uses = append(uses, use{"the slice handed to ReadAt holds last-first+1 octets", y.Len, func(a, b int64) int64 { return b - a + 1 }, x.Pos()})
+					case *ssa.Slice:
+						if y.High == nil {
+							exact = false
+						} else {
+							uses = append(uses, use{"the slice handed to ReadAt is cut to last-first+1 octets", y.High, func(a, b int64) int64 { return b - a + 1 }, x.Pos()})
+						}
+					default:
+						exact = false
+					}
+				}
+				r.Decide("flow", key("the slice handed to ReadAt is made for this part"), exact, "every value of the buffer is a make or a re-slice of the part's length", "the buffer ReadAt fills can be one kept from an earlier part (or of unknown length): ReadAt fills all of it, so a part that follows a longer one carries octets beyond its range", x.Pos())
 			}
 			if calleeName(x) == "fmt.Sprintf" {
 				if format, isK := constString(x.Call.Args[0]); isK && format == "bytes %d-%d/%d" {
@@ -246,6 +264,35 @@ func rangeArithmeticRules(r *Report, name string, f *ssa.Function) {
 		}
 	}
 	r.Decide("flow", key("an open-ended range is completed with size-1"), okOpen, "on the HasSuffix(\"-\") edge the text becomes first-(size-1) and that text is parsed", "a range of the form \"N-\" is not completed with the last position of the content: it is refused as malformed or served short", f.Pos())
+	// every element of the comma-separated list is examined, the empty ones included: the parse loop
+	// runs over the strings.Split result itself (a list from which empty elements were dropped can be
+	// empty, and an answer is then assembled from no range at all instead of the 416)
+	nList, okList := 0, true
+	for _, in := range instrs(f) {
+		ia, isIa := in.(*ssa.IndexAddr)
+		if !isIa || ia.X.Type().String() != "[]string" {
+			continue
+		}
+		byComma := false
+		allSplit := true
+		for _, l := range resolveAll(ia.X) {
+			c, isC := l.(*ssa.Call)
+			if !isC || calleeName(c) != "strings.Split" {
+				allSplit = false
+				continue
+			}
+			if sep, isK := constString(c.Call.Args[1]); isK && sep == "," {
+				byComma = true
+			}
+		}
+		if byComma {
+			nList++
+			if !allSplit {
+				okList = false
+			}
+		}
+	}
+	r.Decide("flow", key("every element of the Range list is parsed"), nList >= 1 && okList, "the parse loop indexes the result of strings.Split(header, \",\")", "the range specs that are parsed are not the elements of the comma-separated header (a filtered list, a helper's result): a header that names no valid spec yields an empty list, and the answer is a 206 without parts instead of a 416", f.Pos())
 	// the header is matched case-insensitively
 	okLower := false
 	for _, sc := range plainCalls(f, "strings.Split") {
